@@ -4,3 +4,4 @@ import SmppVerif.Props.C11
 import SmppVerif.Props.C17
 import SmppVerif.Props.C20
 import SmppVerif.Props.C08
+import SmppVerif.Props.C18
